@@ -172,6 +172,20 @@ func streamFaults(cfg *Config, res *Result) error {
 				}
 			}
 		}
+		// Close of a handle fails and the data written through it is lost (outside the model: oracle only)
+		wb := 0
+		for _, pi := range r.Perm(len(pts)) {
+			if pts[pi].spec.Method != "close" {
+				continue
+			}
+			fc := *c
+			fc.Faults = []FaultSpec{pts[pi].spec}
+			fc.FaultErr = "writeback"
+			jobs = append(jobs, job{&fc})
+			if wb++; wb >= 4 {
+				break
+			}
+		}
 		// a few double faults
 		for k := 0; k < 2 && len(pts) >= 2; k++ {
 			a, bb := r.Intn(len(pts)), r.Intn(len(pts))
